@@ -643,7 +643,9 @@ pub fn rotating_child(args: &[String]) -> i32 {
                 let mut scn = directed[r.below(directed.len())].clone();
                 // 9-21 writes of other keys first: the log turns over two to five times before the directed operations
                 let pad = 9 + 4 * r.below(4);
-                let mut away: Vec<Op> = (0..pad).map(|p| Op::Set(0, format!("p{}", p % 5), p % VALUES.len())).collect();
+                // (pad keys are also removed and written again: the records of one key then lie on both sides of a rotation,
+                // and what the joiner is told about it has to be the newest of them)
+                let mut away: Vec<Op> = (0..pad).map(|p| if p % 4 == 3 { Op::Remove(0, format!("p{}", (p + 2) % 5)) } else { Op::Set(0, format!("p{}", p % 5), p % VALUES.len()) }).collect();
                 away.extend(scn.away.clone());
                 scn.away = away;
                 run_scenario(&scn, r.next(), v, st);
